@@ -422,7 +422,7 @@ Definition run_fields4 (f : list bytes) : bytes * bool :=
   else if bytes_eqb op (s2b "nsuite") then (r_suite (new_suite (parse_suite (a 1%nat))), true)
   else if bytes_eqb op (s2b "known") then (s2b "ok:n" ++ (if is_known_suite (unhx (a 1%nat)) then [49] else [48]), true)
   else if bytes_eqb op (s2b "fromraws") then (s2b "cfg:" ++ suite_text (suite_config_from_raws (unhx (a 1%nat))), true)
-  else if bytes_eqb op (s2b "listsuites") then (s2b "ok:" ++ join 44 (sort_names list_suites), true)
+  else if bytes_eqb op (s2b "listsuites") || bytes_eqb op (s2b "listsuites_after_edit") then (s2b "ok:" ++ join 44 (sort_names list_suites), true)
   else run_fields5 f.
 
 (** [scan <case>]: harness self-check that the error text of the inner case discloses neither
